@@ -29,6 +29,7 @@ import (
 	"strconv"
 	"strings"
 	"testing"
+	"time"
 	"unsafe"
 
 	"github.com/tencent/goom/arg"
@@ -975,6 +976,26 @@ func c19RunLib(fn string) (res string) {
 	case "filepath.Base":
 		mock.Func(filepath.Base).Apply(func(p string) string { n++; return "m" })
 		r = filepath.Base("/a/b")
+	case "time.Now/func", "time.Now/name", "time.Now/ret", "time.Now/as":
+		// time.Now through every handle kind; the logger calls time.Now itself (debug.go:14 excludes it from call logging),
+		// so only what OUR call sees is recorded, not how often the callback ran
+		fixed := time.Unix(1234567, 0)
+		switch fn {
+		case "time.Now/func":
+			mock.Func(time.Now).Apply(func() time.Time { n++; return fixed })
+		case "time.Now/name":
+			mock.Pkg("time").ExportFunc("Now").Apply(func() time.Time { n++; return fixed })
+		case "time.Now/ret":
+			mock.Func(time.Now).Return(fixed)
+		default:
+			mock.Pkg("time").ExportFunc("Now").As(func() time.Time { return time.Time{} }).Return(fixed)
+		}
+		got := time.Now()
+		mock.Reset()
+		if got.Equal(fixed) {
+			return "lib r=m"
+		}
+		return "lib r=?"
 	default:
 		return "bad-op"
 	}
@@ -1025,6 +1046,13 @@ func TestVerifC19(t *testing.T) {
 	}
 	out := vh.OpenOut()
 	defer out.Close()
+	// c19.h lines run in a process whose HOME does not exist: goom's logger cannot open its private log file
+	nohome := os.Getenv("VERIF_C19_NOHOME") != ""
+	if nohome {
+		if _, err := os.Stat(os.Getenv("HOME")); err == nil {
+			t.Fatal("VERIF_C19_NOHOME needs a HOME that does not exist")
+		}
+	}
 	dirty := false
 	start, _ := strconv.Atoi(os.Getenv("VERIF_START"))
 	for _, op := range vh.ReadOps() {
@@ -1032,7 +1060,10 @@ func TestVerifC19(t *testing.T) {
 			continue
 		}
 		switch op.Toks[0] {
-		case "c19.s":
+		case "c19.s", "c19.h":
+			if (op.Toks[0] == "c19.h") != nohome {
+				continue
+			}
 			if len(op.Toks) < 2 || op.Toks[1] != cfg {
 				continue
 			}
